@@ -11,10 +11,12 @@ on it at all.
 -/
 import BytomModel.Lemmas.TxValidate
 import BytomModel.Lemmas.TxComplete
+import BytomModel.Lemmas.TxEntries
 
 namespace BytomModel.Props.C01
 open BytomModel.Fixed BytomModel.Gen.Checked BytomModel.Model.TxValidate BytomModel.Lemmas.TxValidate
 open BytomModel.Lemmas.TxComplete
+open BytomModel.Model.TxEntries BytomModel.Lemmas.TxEntries
 
 /-- `order` only permutes the map entries -/
 def IsOrder (order : PMap → PMap) : Prop := ∀ m, (order m).Perm m
@@ -415,6 +417,133 @@ theorem balance_stage_complete {order : PMap → PMap} (ho : IsOrder order) (tx 
     have h0 := (hmem _ hm).1 rfl
     simp only at h0
     omega
+
+/-! ### explicit entry graphs (mapped transactions with fields changed in place) -/
+
+/-- the three loops of the mux case over ARBITRARY source / destination value lists -/
+theorem balance_core {order : PMap → PMap} (ho : IsOrder order) {srcs dsts : List (Nat × Nat)} {m1 m2 : PMap}
+    {sz : Int} {g1 : Gas} (h1 : addSources [] srcs = .ok m1) (h2 : subDests m1 dsts = .ok m2)
+    (h3 : parityLoop sz Gas.zero (order m2) = .ok g1) :
+    (∀ a, a ≠ btm → sumOf a srcs = sumOf a dsts) ∧ sumOf btm dsts ≤ sumOf btm srcs ∧
+    g1.btmValue = sumOf btm srcs - sumOf btm dsts := by
+  obtain ⟨a1, a2, a3, a4, _⟩ := addSources_spec h1 inRange_nil (by simp [keys])
+  obtain ⟨b1, b2, b3, b4, b5⟩ := subDests_spec h2 a1 a2
+  have hperm := ho m2
+  have hn : (keys (order m2)).Nodup := (List.Perm.nodup_iff (hperm.map Prod.fst)).mpr b2
+  have hr : InRange' (order m2) := fun p hp => inRange'_of b1 b2 p (hperm.subset hp)
+  obtain ⟨c1, c2, c3⟩ := parityLoop_ok h3 hr
+  have hval : ∀ a, ((pget m2 a).getD 0 : Int) = (sumOf a srcs : Int) - (sumOf a dsts : Int) := by
+    intro a
+    have := b3 a; rw [a3 a] at this
+    simp [pget] at this
+    rw [this]
+  have hnone : ∀ a, pget m2 a = none → sumOf a srcs = 0 ∧ sumOf a dsts = 0 := by
+    intro a ha
+    rw [pget_none_iff, b4 a] at ha
+    have hs : a ∉ srcs.map Prod.fst := by
+      intro c; exact ha ((a4 a).mpr (Or.inr c))
+    refine ⟨sumOf_zero_of_not_mem hs, sumOf_zero_of_not_mem ?_⟩
+    intro c
+    obtain ⟨p, hp, e⟩ := List.mem_map.mp c
+    exact ha (e ▸ (b5 p hp).1)
+  refine ⟨?_, ?_, ?_⟩
+  · intro a ha
+    cases e : pget m2 a with
+    | none => rw [(hnone a e).1, (hnone a e).2]
+    | some v =>
+      have hm : (a, v) ∈ order m2 := hperm.symm.subset (pget_mem e)
+      have hz := (c1 _ hm).2 ha
+      have := hval a; rw [e] at this; simp at this hz; omega
+  · cases e : pget m2 btm with
+    | none => rw [(hnone btm e).1, (hnone btm e).2]
+    | some v =>
+      have hm : (btm, v) ∈ order m2 := hperm.symm.subset (pget_mem e)
+      have hz := (c1 _ hm).1 rfl
+      have := hval btm; rw [e] at this; simp at this hz; omega
+  · cases e : pget m2 btm with
+    | none =>
+      rw [(hnone btm e).1, (hnone btm e).2]
+      have hall : ∀ p ∈ order m2, p.1 ≠ btm := by
+        intro p hp c
+        have : btm ∈ keys m2 := c ▸ List.mem_map.mpr ⟨p, hperm.subset hp, rfl⟩
+        rw [pget_none_iff] at e; exact e this
+      rw [c2 hall]; rfl
+    | some v =>
+      have hm : (btm, v) ∈ order m2 := hperm.symm.subset (pget_mem e)
+      rw [c3 v hm hn]
+      have hz := (c1 _ hm).1 rfl
+      have := hval btm; rw [e] at this; simp at this hz; omega
+
+/-- **C01 on explicit entry graphs** (`Model/TxEntries`: every value / reference / position
+    field the validator compares is a field of its own — covers mapped transactions in which a
+    field of an entry was changed in place). If such a graph is accepted then
+    (1) the mux balances: non-BTM source totals = destination totals, BTM destinations ≤ sources,
+        `BTMValue` = the difference;
+    (2) every mux source is backed by an existing input entry that forwards exactly that value,
+        and for spends and vetoes the CONSUMED OUTPUT holds exactly that value (`pv = wd = ms`);
+    (3) every mux destination is backed by an existing result entry carrying exactly that value.
+    So the value that really enters (consumed outputs) and really leaves (result entries) is
+    what the balanced mux saw. Issuances are the exception: `Issuance.Value` is not compared
+    with the forwarded value (F-C01c). -/
+theorem entries_conserve {ctx : Ctx} {order : PMap → PMap} {tx : ETx} {g : Gas} (ho : IsOrder order)
+    (h : validateE ctx order tx = .ok g) (hne : tx.outs ≠ []) :
+    ((∀ a, a ≠ btm → sumOf a (tx.ins.map (·.ms)) = sumOf a (tx.outs.map (·.dv))) ∧
+      sumOf btm (tx.outs.map (·.dv)) ≤ sumOf btm (tx.ins.map (·.ms)) ∧
+      g.btmValue = sumOf btm (tx.ins.map (·.ms)) - sumOf btm (tx.outs.map (·.dv))) ∧
+    (∀ s ∈ tx.ins, ∃ inp, tx.ins[s.msRef]? = some inp ∧ inp.wd = s.ms ∧
+      ((inp.base.kind = .spend ∨ inp.base.kind = .veto) → inp.pv = s.ms)) ∧
+    (∀ d ∈ tx.outs, ∃ o, tx.outs[d.dstRef]? = some o ∧ o.val = d.dv) := by
+  have hm := validateE_ok_mux h hne
+  unfold checkMuxE at hm
+  split at hm
+  · cases hm
+  rename_i m1 h1
+  split at hm
+  · cases hm
+  rename_i m2 h2
+  split at hm
+  · cases hm
+  rename_i g1 h3
+  split at hm
+  · cases hm
+  rename_i hd
+  split at hm
+  · cases hm
+  rename_i g2 hs
+  obtain ⟨hsrc, hb2⟩ := checkSourcesE_ok tx.ins 0 g1 g2 [] hs (by simp)
+  have hdst := checkDestsE_ok tx.outs 0 (by
+    cases e : checkDestsE tx 0 tx.outs with
+    | error x => rw [e] at hd; cases hd
+    | ok u => cases u; rfl)
+  obtain ⟨c1, c2, c3⟩ := balance_core ho h1 h2 h3
+  refine ⟨⟨c1, c2, ?_⟩, ?_, hdst⟩
+  · rw [chargeStorageGas_btm hm, hb2, c3]
+  · intro s hs'
+    obtain ⟨inp, hi, hw, hp⟩ := hsrc s hs'
+    exact ⟨inp, hi, hw, fun hk => by rw [hp hk]; exact hw⟩
+
+/-- the seeded-change witness as a theorem: a veto (or spend) whose consumed output holds a
+    value different from what reaches the mux is never accepted -/
+theorem consumed_value_checked {ctx : Ctx} {order : PMap → PMap} {tx : ETx} {g : Gas} (ho : IsOrder order)
+    (h : validateE ctx order tx = .ok g) (hne : tx.outs ≠ []) (i : Nat) (s inp : EIn)
+    (hs : tx.ins[i]? = some s) (hi : tx.ins[s.msRef]? = some inp)
+    (hk : inp.base.kind = .spend ∨ inp.base.kind = .veto) : inp.pv = s.ms := by
+  obtain ⟨_, hsrc, _⟩ := entries_conserve ho h hne
+  obtain ⟨inp', hi', _, hp⟩ := hsrc s (List.mem_of_getElem? hs)
+  rw [hi] at hi'; cases hi'
+  exact hp hk
+
+/-- tests: the MapTx graph of a valid veto transaction is accepted; with the consumed vote
+    output's value changed in place (the C01-sub4 witness) it is rejected with ErrMismatchedValue;
+    with an ISSUANCE's committed amount changed it is still accepted (F-C01c) -/
+example :
+    let tx : Tx := ⟨1, 200, 0, [⟨.veto, 0, 100000000, true, 10, 64, 0⟩], [⟨.original, 0, 90000000, 0⟩]⟩
+    validateE ⟨1, 100, false⟩ btmLast (ofTx tx) = validateTx ⟨1, 100, false⟩ btmLast tx ∧
+    validateE ⟨1, 100, false⟩ btmLast (applyMut (ofTx tx) (.pv 0 (0, 1000))) = .error .mismatchedvalue := by decide
+
+example :
+    let tx : Tx := ⟨1, 300, 0, [⟨.issue, 1, 500, true, 10, 0, 0⟩, ⟨.spend, 0, 1000000, true, 10, 0, 1⟩], [⟨.original, 1, 500, 0⟩]⟩
+    (validateE ⟨1, 100, false⟩ btmLast (applyMut (ofTx tx) (.pv 0 (1, 7)))).isOk = true := by decide
 
 /-! ### the full statement and where the unchanged code breaks it -/
 
